@@ -41,7 +41,8 @@ CLAIMED.update({
     "C14": dict(cat="exploration", ref="DESIGN.md 3 (C14), B.3",
                 technique="deterministic simulation of operation histories: 1-2 simulated clients, each a real LASFile and a "
                           "plain list model driven by the same seeded operation sequence, interleaved by a seeded op-level "
-                          "scheduler; model equality, agreement of all views and non-interference checked after every step",
+                          "scheduler and (thorough, a few quick runs) by the line-level baton scheduler with real threads; model "
+                          "equality, agreement of all views and non-interference checked after every step",
                 text="Every listed curve operation (positions incl. negatives and beyond the end, existing/new/duplicate/blank "
                      "names, set_data with wider arrays, names lists, truncate) is generated; after each step order, original "
                      "names, metadata and arrays equal the list model and keys/values/items/index/data/int and mnemonic "
